@@ -268,6 +268,13 @@ func c20Judge(res *Result, tally *c20Tally, s *c20Script, real []pkglint.VerifC2
 					fmt.Sprintf("Load at step %d of [%s] returned a *Line that an earlier Load had handed out", i, strings.Join(s.opStrings()[:i+1], " ")))
 			}
 		}
+		for _, f := range ob.Flags {
+			if strings.HasPrefix(f, "bookkeeping:") {
+				violation("C20/table-mapping-out-of-step/"+f[len("bookkeeping:"):],
+					fmt.Sprintf("after step %d of [%s] (capacity %d) FileCache.table and FileCache.mapping are out of step: %s",
+						i, strings.Join(s.opStrings()[:i+1], " "), s.Cap, f[len("bookkeeping:"):]))
+			}
+		}
 		if has("fix-leaked") {
 			violation("C20/fix-leaks-into-other-view",
 				fmt.Sprintf("the fix at step %d of [%s] changed what another view shows", i, strings.Join(s.opStrings()[:i+1], " ")))
@@ -675,7 +682,7 @@ func c20LoadMkTwice(ctx *Ctx, res *Result, tally *c20Tally) {
 				}
 				what := fmt.Sprintf("mode %s: LoadMk(f, %d) twice on %q, no fix made by the caller: the second Load gives %s, a direct read %s %s",
 					c20ModeName[mode], opts, content, second, fresh, panicked)
-				res.AddViolation(Violation{Key: "C20/dirty-cache/parse-time-fix-never-saved", What: what, FoundInput: true, Size: 2,
+				res.AddViolation(Violation{Key: "C20/loadmk-twice-differs-from-disk/" + c20ModeName[mode], What: what, FoundInput: true, Size: 2,
 					Replay: map[string]any{"kind": "loadmk", "content": hx(content), "mode": mode, "opts": opts}})
 			}
 		}
@@ -817,7 +824,7 @@ func c20WholeRun(ctx *Ctx, res *Result, tally *c20Tally, scIdx, fxIdx int, flags
 	if crashed {
 		key := "C20/whole-run/crash"
 		if unsaved != "" {
-			key = "C20/dirty-cache/parse-time-fix-never-saved"
+			key += "/fix-announced-but-file-not-rewritten"
 		}
 		first := strings.SplitN(strings.TrimSpace(ra.Stderr), "\n", 2)[0]
 		res.AddViolation(Violation{Key: key, FoundInput: true, Size: 10 + len(sc.Pkgs),
@@ -892,7 +899,7 @@ func c20WholeRun(ctx *Ctx, res *Result, tally *c20Tally, scIdx, fxIdx int, flags
 	if strings.Join(got, "\n") != strings.Join(want, "\n") {
 		key := "C20/whole-run/differs-from-fresh-runs"
 		if unsaved != "" {
-			key = "C20/dirty-cache/parse-time-fix-never-saved"
+			key += "/fix-announced-but-file-not-rewritten"
 		}
 		at := 0
 		for at < len(got) && at < len(want) && got[at] == want[at] {
